@@ -2437,7 +2437,7 @@ Definition commit_bearing (m : msg) : bool := (m_type m =? MsgAppend) || (m_type
 Definition msg_commit_ok (c : N) (m : msg) : Prop := commit_bearing m = true -> m_commit m <= c.
 
 (* [CInv c r]: the commit index is at least c, and no queued MsgAppend/MsgHeartbeat
-   advertises more than the node's own commit index.  The parameter c makes
+   advertises more than the node's own commit index.  The index c makes
    "the commit index never decreases" part of the same preserved statement. *)
 Definition CInv (c : N) (r : raft) : Prop :=
   c <= committed (r_log r) /\ Forall (msg_commit_ok (committed (r_log r))) (r_msgs r).
